@@ -247,7 +247,7 @@ pub fn run_history_property<H: HB>(prop: &'static str, tier: Tier) -> Outcome {
         "C02" => vec![true],
         _ => vec![false, true],
     };
-    let full = A_CORE | A_BULK | A_CLONE | A_PEEK_MUT;
+    let full = A_CORE | A_BULK | A_CLONE | A_PEEK_MUT | A_ITER_MUT_BACK;
     let (alpha, k, m): (u32, u32, usize) = match prop {
         // order properties: the whole mutator alphabet (conversion pulls in the other kind)
         "C01" | "C02" => (full, if q { 3 } else { 4 }, 3),
@@ -260,6 +260,8 @@ pub fn run_history_property<H: HB>(prop: &'static str, tier: Tier) -> Outcome {
     let prios: Vec<i32> = (0..m as i32).collect();
     let mut cfg = base_cfg(prop, k, &prios, alpha);
     cfg.kinds = kinds.clone();
+    // constructors: every vector of <= 3 pairs (a repeated item followed by a new one needs 3)
+    cfg.root_vec_len = 3;
     // merge soundness (thorough): successors recomputed from re-discovered copies must match
     cfg.merge_check |= !q && matches!(prop, "C03" | "C12");
     if prop == "C01" || prop == "C02" {
@@ -376,13 +378,15 @@ pub fn run_probe_property<H: HB>(prop: &'static str, tier: Tier) -> Outcome {
     // programs from deep trees too (depth 0: the seeds themselves)
     let sizes: Vec<usize> = match (prop, q) {
         ("C16", _) => vec![7, 8],
+        ("C06", true) => vec![5, 6, 7, 8, 9, 10, 15, 16, 17],
+        ("C06", false) => vec![5, 6, 7, 8, 9, 10, 11, 12, 15, 16, 17, 31, 32, 33],
         (_, true) => vec![5, 6, 7],
         (_, false) => vec![5, 6, 7, 8, 9, 10],
     };
     for n in sizes {
         let mut c = seeds_cfg(prop, n, &REL_BIN, A_REACH);
         c.deep = false;
-        let seeds = if n <= 8 { f_bin(n) } else { f_seg(n) };
+        let seeds = if n <= 8 && !(prop == "C06" && q && n > 7) { f_bin(n) } else { f_seg(n) };
         let uni = c.universe();
         let mk = |ex: &mut Explorer<H>| {
             for p in crate::probes::all_probes::<H>(prop, &uni[..uni.len().min(3)]) {
@@ -651,7 +655,7 @@ pub fn run_c10<H: HB>(tier: Tier) -> Outcome {
         }
         let mut fault_cfg = cfg.clone();
         let deep = cfg.k > 6;
-        fault_cfg.alphabet = if deep { fault_alpha & !(A_EXTEND | A_CAPACITY | A_BORROWED) } else { fault_alpha };
+        fault_cfg.alphabet = if deep { fault_alpha & !(A_CAPACITY | A_BORROWED) } else { fault_alpha };
         let e3cfg = E3Cfg { prop, fault_cfg, cont_cfg, max_faults: if q || deep { 1 } else { 2 }, depth: if deep { if q { 1 } else { 2 } } else if q { 2 } else { 3 }, threads: threads(), max_states: if q { 400_000 } else { 20_000_000 }, max_wall_s: if q { 40.0 } else { 1500.0 } };
         let e3 = E3::<H>::new(&e3cfg);
         let bases: Vec<FNode<H>> = nodes.iter().map(|n| FNode { q: n.q.clone(), faults: 0, depth: 0, base: std::sync::Arc::new((n.root.0, n.root.1.clone(), n.ops())), trail: None }).collect();
